@@ -25,11 +25,19 @@
   kwargs without args keeps its position         C14_kwargs_keeps_position, C14_args_shape
   never panics                                   C14_msgToList_no_panic, C14_listToMsg_no_panic,
                                                  C14_fromList_no_panic, C14_deserialize_no_panic
-  error unless known code + compatible fields    C14_rejects (Go-convertibility, as coded),
-                                                 C14_rejects_strict (full statement, WAMP
-                                                 typing) and C14_rejects_strict_fails (witness)
-  error for anything that is not a list          C14_rejects_nonlist (full statement) and
-                                                 C14_toplevel_map_accepted(_cbor) (witnesses)
+  error unless known code + compatible fields    C14_rejects (exact accept/reject condition, as coded),
+                                                 C14_string_fields_strict (string/URI fields take
+                                                 only strings: holds since the fix of C14-F1);
+                                                 full statements that are still false, with
+                                                 witnesses replayed on the implementation:
+                                                 C14_rejects_strict / C14_rejects_strict_fails,
+                                                 C14_negative_id_accepted (C14-F1b: float or
+                                                 negative number for an id), C14_bin_for_list_accepted
+                                                 (C14-F1d), C14_rejects_short /
+                                                 C14_rejects_short_fails (C14-F1c: short list)
+  error for anything that is not a list          C14_rejects_nonlist (proved at full strength since
+                                                 the fix of C14-F2), C14_decodeList_everywhere,
+                                                 C14_toplevel_map_rejected
   value round trip per format, any depth         C14_msgpack_roundtrip, C14_cbor_roundtrip,
                                                  C14_json_roundtrip (fragment without floats
                                                  and binaries)
@@ -453,8 +461,9 @@ theorem C14_msgToList_no_panic (m : Msg) (h : WellTyped m) : (msgToList m).isPan
 /-! ## Rejects -/
 
 /-- What the code treats as a compatible item for a field: nil (skipped), anything Go can assign or
-    convert (`convertTo`: an integer or float for an id, an integer or []byte for a string/URI, ...),
-    and []byte for a List (copied element-wise by `assignSlice`). -/
+    is allowed to convert (`convertTo`: an integer or a float for an id or an int; a string — and,
+    since the conversion is guarded, only a string — for a string/URI), and []byte for a List
+    (copied element-wise by `assignSlice`). -/
 def Compatible (k : GoKind) (v : CVal) : Bool :=
   v.isNull || (convertTo k v).isSome || (k == .sliceAny && match v with | .bin _ => true | _ => false)
 
@@ -465,7 +474,8 @@ def CompatibleAll : List FieldSchema → List CVal → Bool
 private theorem assignField_ok_iff (i : Nat) (k : GoKind) (v : CVal) (hn : v.isNull = false) :
     (assignField i k v).isOk = Compatible k v := by
   cases k <;> cases v <;> simp [CVal.isNull] at hn <;>
-    simp [assignField, convertTo, sameKind, Compatible, Res.isOk, CVal.isNull]
+    simp [assignField, convertTo, sameKind, Compatible, Res.isOk, CVal.isNull] <;>
+    cases Gen.convertGuard <;> simp
 
 private theorem fill_ok_iff : ∀ (fs : List FieldSchema) (zs its : List CVal) (i : Nat),
     zs.length = fs.length → (fill i fs zs its).isOk = CompatibleAll fs its
@@ -541,26 +551,111 @@ def StrictAll : List FieldSchema → List CVal → Bool
   | f :: fs, it :: its => StrictCompatible f.kind it && StrictAll fs its
   | _, _ => true
 
+/-- An item facing a string/URI field is a string (or nil, which leaves the field empty). -/
+def StringStrict : GoKind → CVal → Bool
+  | .string, .str _ => true
+  | .string, .null => true
+  | .string, _ => false
+  | _, _ => true
+
+def StringStrictAll : List FieldSchema → List CVal → Bool
+  | f :: fs, it :: its => StringStrict f.kind it && StringStrictAll fs its
+  | _, _ => true
+
+private theorem compatible_stringStrict (hg : Gen.convertGuard = .stringFromStringOnly) :
+    ∀ (fs : List FieldSchema) (its : List CVal), CompatibleAll fs its = true → StringStrictAll fs its = true
+  | [], _, _ => by simp [StringStrictAll]
+  | _ :: _, [], _ => by simp [StringStrictAll]
+  | f :: fs, it :: its, h => by
+      simp [CompatibleAll] at h
+      have ih := compatible_stringStrict hg fs its h.2
+      have h1 : StringStrict f.kind it = true := by
+        have hc := h.1
+        cases hk : f.kind <;> cases it <;>
+          simp_all [Compatible, StringStrict, convertTo, CVal.isNull]
+      simp [StringStrictAll, h1, ih]
+
+/-- **String and URI fields accept only strings** (what the fix of C14-F1 established): whenever a
+    list is accepted as a message, every item facing a `string`/`URI` field is a string (or nil).
+    Depends on the regenerated fact `Gen.convertGuard = .stringFromStringOnly`: with the guard
+    removed from listToMsg this no longer checks. -/
+theorem C14_string_fields_strict (fmt : Format) (v0 : CVal) (items : List CVal) (m : Msg)
+    (h : fromList fmt (v0 :: items) = .ok m) : StringStrictAll m.schema.fields items = true := by
+  have hr := C14_rejects fmt (v0 :: items)
+  rw [h] at hr
+  simp only [Res.isOk] at hr
+  -- unfold the characterisation
+  cases hh : headType fmt v0 with
+  | error e => simp [hh] at hr
+  | panic s => simp [hh] at hr
+  | ok t =>
+    cases hn : newMessage t with
+    | none => simp [hh, hn] at hr
+    | some m0 =>
+      simp [hh, hn] at hr
+      have hm : m.schema = m0.schema := by
+        simp [fromList, hh, listToMsg, hn] at h
+        cases hf : fill 1 m0.schema.fields m0.fields items with
+        | ok fs => simp [hf, Res.map] at h; rw [← h]
+        | error e => simp [hf, Res.map] at h
+        | panic s => simp [hf, Res.map] at h
+      rw [hm]
+      exact compatible_stringStrict (by decide) _ _ hr
+
 /-- Full-strength statement: a message comes out only if every item is WAMP-compatible with its
     field. -/
 def C14_rejects_strict : Prop :=
   ∀ (fmt : Format) (v0 : CVal) (items : List CVal) (m : Msg),
     fromList fmt (v0 :: items) = .ok m → StrictAll m.schema.fields items = true
 
-/-- It is false of the code as written: `[32, 1, {}, 65]` is accepted as
-    SUBSCRIBE with Topic "A" (Go converts the integer 65 to the one-rune string "A"); likewise
-    `[32, 1.5, {}, "a"]` (float truncated to id 1) and `[32, -1, {}, "a"]` (id 2^64-1).
-    Replayed on the implementation by the `codec` family (finding C14-F1). -/
+/-- It is still false of the code as written (finding C14-F1b): `[33, 1.5, 2]` is accepted as
+    SUBSCRIBED with request id 1 — Go converts the float 1.5 to the uint64 1 —, and `[33, -1, 2]`
+    with request id 2^64-1.  Replayed on the implementation by the `codec` family. -/
 theorem C14_rejects_strict_fails : ¬ C14_rejects_strict := by
   intro h
-  have := h .json (.int 32) [.int 1, .dict [], .int 65]
-    { schema := { name := "Subscribe", code := 32, fields := [
-          { name := "Request", goType := "ID", kind := .uint64, omitempty := false },
-          { name := "Options", goType := "Dict", kind := .mapStringAny, omitempty := false },
-          { name := "Topic", goType := "URI", kind := .string, omitempty := false }] },
-      fields := [.int 1, .dict [], .str [65]] } rfl
-  revert this
-  decide
+  have hacc : (match fromList .json [.int 33, .float 0x3FF8000000000000, .int 2] with
+      | .ok m => m.schema.name == "Subscribed" && StrictAll m.schema.fields [.float 0x3FF8000000000000, .int 2] == false
+      | _ => false) = true := by decide +kernel
+  cases hr : fromList .json [.int 33, .float 0x3FF8000000000000, .int 2] with
+  | error e => simp [hr] at hacc
+  | panic s => simp [hr] at hacc
+  | ok m =>
+    have := h _ _ _ m hr
+    simp [hr, this] at hacc
+
+/-- The same with a negative integer in an id position. -/
+theorem C14_negative_id_accepted :
+    (match fromList .json [.int 33, .int (-1), .int 2] with
+      | .ok m => m.schema.name == "Subscribed" && StrictAll m.schema.fields [.int (-1), .int 2] == false
+      | _ => false) = true := by decide +kernel
+
+/-- Finding C14-F1d: a `[]byte` is accepted for a List field (`assignSlice` copies it into a list of
+    uint8): MessagePack `95 24 01 02 80 c4 03 01 02 03` is an EVENT with Arguments [1, 2, 3]. -/
+theorem C14_bin_for_list_accepted :
+    (match fromList .msgpack [.int 36, .int 1, .int 2, .dict [], .bin [1, 2, 3]] with
+      | .ok m => m.schema.name == "Event"
+      | _ => false) = true := by decide +kernel
+
+/-- Full-strength statement about length: a message comes out only if the list has an item for
+    every field that is not `omitempty`. -/
+def C14_rejects_short : Prop :=
+  ∀ (fmt : Format) (v0 : CVal) (items : List CVal) (m : Msg),
+    fromList fmt (v0 :: items) = .ok m → (m.schema.fields.filter (fun f => !f.omitempty)).length ≤ items.length
+
+/-- False of the code as written (finding C14-F1c): `[1]` is accepted as a HELLO with an empty
+    realm and nil details; missing items leave the fields at their zero value. -/
+theorem C14_rejects_short_fails : ¬ C14_rejects_short := by
+  intro h
+  have hacc : (match fromList .json [.int 1] with
+      | .ok m => m.schema.name == "Hello" && (m.schema.fields.filter (fun f => !f.omitempty)).length == 2
+      | _ => false) = true := by decide +kernel
+  cases hr : fromList .json [.int 1] with
+  | error e => simp [hr] at hacc
+  | panic s => simp [hr] at hacc
+  | ok m =>
+    have := h _ _ _ m hr
+    simp [hr] at hacc
+    simp [hacc.2] at this
 
 /-! ## Layer b: wire formats -/
 
@@ -619,9 +714,15 @@ theorem C14_wire_roundtrip (m : Msg) (h : WellTyped m) :
           Wire.deserialize .json (Json.enc (.list l)) = .ok (.ok (norm m))) := by
   obtain ⟨l, h1, _, h3⟩ := C14_list_roundtrip m h
   refine ⟨l, h1, fun hv => ?_, fun hv => ?_, fun hv => ?_⟩
-  · simp [Wire.deserialize, Wire.decTop, MsgPack.decTop_enc l hv, h3]
-  · simp [Wire.deserialize, Wire.decTop, CBOR.decTop_enc l hv, h3]
-  · simp [Wire.deserialize, Wire.decTop, Json.decTop_enc l hv, h3]
+  · have := MsgPack.dec_enc (.list l) [] hv
+    simp only [List.append_nil] at this
+    simp [Wire.deserialize, Wire.decode, this, h3]
+  · have := CBOR.dec_enc (.list l) [] hv
+    simp only [List.append_nil] at this
+    simp [Wire.deserialize, Wire.decode, this, h3]
+  · have := Json.dec_enc (.list l) [] hv Json.numSafe_nil
+    simp only [List.append_nil] at this
+    simp [Wire.deserialize, Wire.decode, this, h3]
 
 /-- **Deserialising arbitrary bytes never panics**: whatever the codec hands over, the repo's code
     answers with a message or an error. -/
@@ -629,42 +730,39 @@ theorem C14_deserialize_no_panic (fmt : Format) (b : Bytes) (r : Res Msg)
     (h : Wire.deserialize fmt b = .ok r) : r.isPanic = false := by
   unfold Wire.deserialize at h
   split at h
-  · cases h; exact C14_fromList_no_panic fmt _
   · cases h
+  · cases h; exact C14_fromList_no_panic fmt _
+  · split at h
+    · cases h; rfl
+    · cases h
 
-/-- Full-strength statement of "an error for anything that is not a list": a message comes out
-    only if the bytes decode to a list. -/
-def C14_rejects_nonlist : Prop :=
-  ∀ (fmt : Format) (b : Bytes) (m : Msg), Wire.deserialize fmt b = .ok (.ok m) →
-    ∃ l rest, Wire.decode fmt b = .ok (.list l, rest)
+/-- Every `Deserialize` goes through `decodeList` (regenerated from the three serializer files). -/
+theorem C14_decodeList_everywhere (fmt : Format) : Wire.topDecodeOf fmt = .listChecked := by
+  cases fmt <;> decide
 
-/-- It is false of the code as written: the codec, asked to decode into `[]any`, flattens a
-    top-level MAP into `[k1, v1, ...]`, so the MessagePack map `{1: "a"}` (bytes 81 01 a1 61) is
-    accepted as HELLO with realm "a"; the same holds for CBOR (a1 01 61 61).  Replayed on the
-    implementation by the `codec` family (finding C14-F2). -/
-theorem C14_toplevel_map_accepted : ¬ C14_rejects_nonlist := by
-  intro h
-  have hacc : (match Wire.deserialize .msgpack [0x81, 0x01, 0xa1, 0x61] with
-      | .ok (.ok m) => m.schema.name == "Hello"
-      | _ => false) = true := by decide +kernel
-  have hnl : (match Wire.decode .msgpack [0x81, 0x01, 0xa1, 0x61] with
-      | .ok (.list _, _) => true
-      | _ => false) = false := by decide +kernel
-  cases hr : Wire.deserialize .msgpack [0x81, 0x01, 0xa1, 0x61] with
-  | error e => simp [hr] at hacc
-  | ok r =>
-    cases r with
-    | error e => simp [hr] at hacc
-    | panic s => simp [hr] at hacc
-    | ok m =>
-      obtain ⟨l, rest, hd⟩ := h _ _ m hr
-      simp [hd] at hnl
+/-- **An error for anything that is not a list** (what the fix of C14-F2 established): a message
+    comes out only if the bytes decode to a list — a top-level map, scalar or nil is answered with
+    "invalid message: not a list".  Depends on the regenerated fact that every `Deserialize` decodes
+    through `decodeList`. -/
+theorem C14_rejects_nonlist (fmt : Format) (b : Bytes) (m : Msg)
+    (h : Wire.deserialize fmt b = .ok (.ok m)) : ∃ l rest, Wire.decode fmt b = .ok (.list l, rest) := by
+  unfold Wire.deserialize at h
+  split at h
+  · cases h
+  · rename_i l rest hd; exact ⟨l, rest, hd⟩
+  · rw [C14_decodeList_everywhere] at h
+    cases h
 
-/-- The same for CBOR. -/
-theorem C14_toplevel_map_accepted_cbor :
-    (match Wire.deserialize .cbor [0xa1, 0x01, 0x61, 0x61] with
-      | .ok (.ok m) => m.schema.name == "Hello"
-      | _ => false) = true := by decide +kernel
+/-- A top-level map with string keys is "not a list" in every format (the non-string-key maps of the
+    original witnesses are outside the value model; the family replays those on the implementation). -/
+theorem C14_toplevel_map_rejected :
+    let notList (r : DRes (Res Msg)) : Bool := match r with
+      | .ok (.error .notAList) => true
+      | _ => false
+    notList (Wire.deserialize .msgpack [0x81, 0xa1, 0x61, 0x01]) = true
+    ∧ notList (Wire.deserialize .cbor [0xa1, 0x61, 0x61, 0x01]) = true
+    ∧ notList (Wire.deserialize .json [0x7b, 0x22, 0x61, 0x22, 0x3a, 0x31, 0x7d]) = true := by
+  decide +kernel
 
 /-! ## Non-vacuity -/
 
